@@ -692,8 +692,8 @@ func (f *formatter) FormatVariableDefinition(def *ast.VariableDefinition) {
 		f.FormatValue(def.DefaultValue)
 	}
 
-	// TODO https://github.com/vektah/gqlparser/v2/issues/102
-	//   VariableDefinition : Variable : Type DefaultValue? Directives[Const]?
+	// VariableDefinition : Variable : Type DefaultValue? Directives[Const]?
+	f.NeedPadding().FormatDirectiveList(def.Directives)
 }
 
 func (f *formatter) FormatSelectionSet(sets ast.SelectionSet) {
